@@ -7,7 +7,7 @@ HERE = os.path.dirname(os.path.dirname(os.path.abspath(__file__)))
 def sh(cmd): return subprocess.run(cmd, shell=True, capture_output=True, text=True)
 seed = os.path.abspath(sys.argv[1]); props = sys.argv[2:]
 tmp = tempfile.mkdtemp(prefix='negchk_')
-ev = os.path.join(tmp, 'ev'); shutil.copytree(os.path.join(HERE, 'evidence'), ev)
+ev = os.path.join(tmp, 'ev')      # evidence of runs on the changed tree goes to the scratch directory
 ok = True
 try:
     mut = os.path.join(tmp, 'mut'); os.makedirs(mut)
@@ -18,14 +18,13 @@ try:
     failed = [l for l in t.stdout.splitlines() if l.startswith('FAILED')]
     print('test suite: %d failed' % len(failed))
     for p in props:
-        c = subprocess.run([os.path.join(HERE, 'check'), p], capture_output=True, text=True, env=dict(os.environ, FXPV_REPO=mut), cwd=HERE)
+        c = subprocess.run([os.path.join(HERE, 'check'), p], capture_output=True, text=True, env=dict(os.environ, FXPV_REPO=mut, FXPV_EVIDENCE_DIR=ev), cwd=HERE)
         bad = [l for l in c.stdout.splitlines() if l.startswith(('VIOLATION', 'CHECKER-ERROR'))]
         summ = [l for l in c.stdout.splitlines() if l.startswith(p + ' tier=')]
         print('check %s: exit %d, %d alarm lines ; %s' % (p, c.returncode, len(bad), summ[-1][:170] if summ else ''))
         for l in bad[:3]: print('   ', l[:300])
         ok = ok and c.returncode == 0 and not bad
 finally:
-    shutil.rmtree(os.path.join(HERE, 'evidence'), ignore_errors=True); shutil.copytree(ev, os.path.join(HERE, 'evidence'))
     shutil.rmtree(tmp, ignore_errors=True)
 print('NO FALSE ALARM' if ok else 'FALSE ALARM')
 sys.exit(0 if ok else 1)
